@@ -78,6 +78,16 @@ def touching_pair(rnd):
     return out
 
 
+# probe for the known finding C05/area/contour-with-reversed-lobe (first seen at seed 19, case B2079): A xor B comes back from the clipping
+# engine as one contour in which the 5 x 5 square (45..50, 20..25) is wound against the rest
+PROBE_INDEX = -1
+PROBE_LOBE = ([[(45, 55), (50, 55), (50, 20), (45, 20)], [(20, 20), (0, 50), (-15, 50), (-25, 45), (-40, 40), (-35, 25), (-10, 5)], [(0, 10), (20, -15), (-30, 35)]],
+              [[(-10, 15), (20, -10), (25, 30), (10, 65), (-25, 40), (-55, 35), (-30, -5)],
+               [(30, 65), (70, 65), (70, 55), (60, 55), (60, 45), (55, 45), (55, 35), (50, 35), (50, 25), (40, 25), (40, 10), (30, 10)],
+               [(80, 10), (80, 15), (75, 15), (75, 30), (70, 30), (70, 15), (65, 15), (65, 30), (60, 30), (60, 15), (55, 15), (55, 30), (50, 30), (50, 15),
+                (45, 15), (45, 30), (40, 30), (40, 15), (35, 15), (35, 30), (30, 30), (30, 10)]])
+
+
 def make_case(i):
     sd = vfw.seed() * 1000003 + 50000 + i
     rnd = random.Random(sd)
@@ -98,13 +108,15 @@ def make_case(i):
     touching = random.Random(sd + 5).random() < 0.04
     if touching:
         A, B = touching_pair(random.Random(sd + 6))
+    if i == PROBE_INDEX:
+        A, B, s, K, style, touching = PROBE_LOBE[0], PROBE_LOBE[1], 2.0 ** 50, 2 ** 50, 2, True
     if style == 2:
         # domain of the statement: scaled coordinates within 62 bits (the clipping engine refuses anything beyond +-2^62 with an exception)
         maxc = max(abs(v) for grp in (A, B) for poly in grp for q in poly for v in q)
         while maxc * s >= 2.0 ** 61 and s > 2.0 ** 40:
             s /= 16.0
         K = int(s)
-    c = Case('B%d' % i, timeout=60)
+    c = Case('B%d' % i if i >= 0 else 'probe-lobe', timeout=60)
     c.op('arr', 'new')
     for p in A:
         if style == 1:
@@ -248,10 +260,27 @@ def judge(chk, c, evs):
     x0, y0, x1, y1 = geom.bbox([groups['a2']])
     u = 1 + max(abs(x0), abs(y0), abs(x1), abs(y1)) * 2.0 ** -52
     slack = 2 * u * (per('a2') + per('a3') + per('a4') + per('a5') + per('a6')) + 16
+    pending = []
     if abs(a_or - (a_and + a_xor)) > slack:
-        chk.violation('C05/area/or=and+xor', 'area(or) %d/2 != area(and) %d/2 + area(xor) %d/2 (slack %d/2)' % (a_or, a_and, a_xor, slack), rp)
+        pending.append(('C05/area/or=and+xor', 'area(or) %d/2 != area(and) %d/2 + area(xor) %d/2 (slack %d/2)' % (a_or, a_and, a_xor, slack)))
     if abs(a_xor - (a_ab + a_ba)) > slack:
-        chk.violation('C05/area/xor=not+not', 'area(xor) %d/2 != area(A-B) %d/2 + area(B-A) %d/2 (slack %d/2)' % (a_xor, a_ab, a_ba, slack), rp)
+        pending.append(('C05/area/xor=not+not', 'area(xor) %d/2 != area(A-B) %d/2 + area(B-A) %d/2 (slack %d/2)' % (a_xor, a_ab, a_ba, slack)))
+    if pending:
+        # Known finding C05/area/contour-with-reversed-lobe: the clipping engine itself can return a contour that runs along an inner edge
+        # twice in the same direction, so that one lobe of the polygon is wound against the rest: every point is covered as it should be,
+        # but the shoelace area (Polygon::area) is short by twice the lobe.  A failed identity is attributed to it only if (a) the
+        # identities hold for the areas actually covered (non-zero winding), (b) some result polygon has such a lobe and (c) the lobe is
+        # already there in the raw output of the engine for the same operands (second stage, work()): a lobe made by gdstk's own hole
+        # linking stays a violation.
+        def arc(h):
+            return sum(geom.covered_area2(p) for p in groups[h])
+        c_or, c_and, c_xor, c_ab, c_ba = arc('a2'), arc('a3'), arc('a4'), arc('a5'), arc('a6')
+        lobed = [h for h in ('a2', 'a3', 'a4', 'a5', 'a6') for p in groups[h] if geom.covered_area2(p) != abs(geom.area2(p))]
+        if lobed and abs(c_or - (c_and + c_xor)) <= slack and abs(c_xor - (c_ab + c_ba)) <= slack:
+            c.meta['area_pending'] = (pending, lobed, rp)
+        else:
+            for key, detail in pending:
+                chk.violation(key, detail, rp)
     chk.cov('cases_judged')
     if m.get('touching'):
         chk.cov('touching_configurations')
@@ -271,12 +300,46 @@ def _has_slit(p):
     return False
 
 
+RAW_OPS = {'a2': ('a0', 'a1', 'or'), 'a3': ('a0', 'a1', 'and'), 'a4': ('a0', 'a1', 'xor'), 'a5': ('a0', 'a1', 'not'), 'a6': ('a1', 'a0', 'not')}
+
+
 def work(rec, b, indices):
     cases = [make_case(i) for i in indices]
     ev = script.run_cases(rec, b, cases, shards=1)
+    stage2 = []
     for c in cases:
         rec.evaluations += 1
         judge(rec, c, ev.get(c.id, []))
+        if c.meta.get('area_pending'):
+            # second stage: what does the clipping engine itself return for the operations whose result has a lobe?
+            c2 = Case(c.id + 'raw', timeout=60)
+            c2.lines = [ln for ln in c.lines if ln.startswith('arr')]
+            for h in c.meta['area_pending'][1]:
+                x, y, op = RAW_OPS[h]
+                c2.op('clipper_raw', x, y, op, fl(c.meta['s']))
+            c2.meta = c.meta
+            stage2.append(c2)
+    if not stage2:
+        return
+    ev2 = script.run_cases(rec, b, stage2, shards=1)
+    for c2 in stage2:
+        pending, lobed, rp = c2.meta['area_pending']
+        evs = ev2.get(c2.id, [])
+        raw = [e for e in evs if e['op'] == 'clipper_raw']
+        native = []
+        for e in raw:
+            for nd in e['nodes']:
+                pts = [(nd['pts'][k], nd['pts'][k + 1]) for k in range(0, len(nd['pts']), 2)]
+                if geom.covered_area2(pts) != abs(geom.area2(pts)):
+                    native.append((e['oper'], pts))
+        if len(raw) == len(lobed) and native:
+            oper, pts = native[0]
+            rec.violation('C05/area/contour-with-reversed-lobe', '%s; raw Clipper contour of the %s operation with %d vertices: shoelace area %s/2, covered area %s/2: %s' % (
+                pending[0][1], oper, len(pts), abs(geom.area2(pts)), geom.covered_area2(pts), pts[:40]), rp)
+            rec.cov('reversed_lobe_contours_from_clipper')
+        else:
+            for key, detail in pending:
+                rec.violation(key, detail, rp)
 
 
 def run(tier):
@@ -284,6 +347,8 @@ def run(tier):
     b = vfw.build()
     n = N[tier]
     vfw.run_sharded(chk, b, n, work)
+    work(chk, b, [PROBE_INDEX])         # known finding: prints KNOWN-FINDING while it reproduces
+    chk.evaluations -= 1
     c = make_case(0)
     chk.sample({'case': c.id, 'A': c.meta['A'], 'B': c.meta['B'], 'scaling': c.meta['s'], 'operations': c.meta['plan']})
     chk.rule = ('pairs of groups (1-3 simple polygons each: rectangles, L, triangles, stars, combs, staircases on a lattice of step 1/5/10, '
